@@ -99,8 +99,10 @@ type Pool struct {
 
 	Slice    *Slicer // nil: full reads
 	Yield    func(site string)
-	FailRead int                // >0: the FailRead-th Read returns ErrInjected
-	FailSeek int                // >0: the FailSeek-th Seek fails with ErrInjected and leaves the reader where it was
+	FailRead int // >0: the FailRead-th Read returns ErrInjected
+	FailSeek int // >0: the FailSeek-th Seek fails with ErrInjected and leaves the reader where it was
+	FailOpen int // >0: the FailOpen-th GetReader/GetReadSeeker fails with ErrInjected
+	opens    int
 	OnRead   func(ev ReadEvent) // called before each read (scheduler actions, mid-run damage)
 	// AfterRead is called when a read has its bytes, before it returns them (a slow response)
 	AfterRead func(ev ReadEvent)
@@ -146,9 +148,23 @@ func (p *Pool) GetSize(i int64) int64 {
 	return p.Inner.GetSize(i)
 }
 
+func (p *Pool) failOpen() bool {
+	p.mu.Lock()
+	defer p.mu.Unlock()
+	p.opens++
+	if p.FailOpen > 0 && p.opens == p.FailOpen {
+		p.Faults++
+		return true
+	}
+	return false
+}
+
 func (p *Pool) GetReader(i int64) (io.Reader, error) {
 	p.yield("GetReader")
 	p.rec(ReadEvent{Op: "open", Index: i})
+	if p.failOpen() {
+		return nil, ErrInjected
+	}
 	r, err := p.Inner.GetReader(i)
 	if err != nil {
 		return nil, err
@@ -162,6 +178,9 @@ func (p *Pool) GetReader(i int64) (io.Reader, error) {
 func (p *Pool) GetReadSeeker(i int64) (io.ReadSeeker, error) {
 	p.yield("GetReadSeeker")
 	p.rec(ReadEvent{Op: "openrs", Index: i})
+	if p.failOpen() {
+		return nil, ErrInjected
+	}
 	rs, err := p.Inner.GetReadSeeker(i)
 	if err != nil {
 		return nil, err
@@ -423,6 +442,13 @@ func (w *Writer) Bytes() []byte {
 	w.mu.Lock()
 	defer w.mu.Unlock()
 	return w.Buf
+}
+
+// Reset empties the writer (the caller reuses its destination for another attempt).
+func (w *Writer) Reset() {
+	w.mu.Lock()
+	defer w.mu.Unlock()
+	w.Buf = nil
 }
 
 // SliceReader is a plain io.Reader over bytes with seeded short reads, optional (0,nil) reads
